@@ -103,13 +103,24 @@ def forIn' {α} (xs : List α) (body : α → Wr Unit) : Wr Unit :=
   | [] => pure ()
   | x :: r => do body x; forIn' r body
 
-/-- A `to_blob` function: allocate `size` zero bytes, run the writer, return the
-buffer (bytes not written stay zero; the closing `assert(ptr == end)` is compiled out). -/
+/-- A `to_blob` function: `std::vector<std::byte> buf(size)` (`length_error` above `max_size()`)
+allocates `size` zero bytes; run the writer; return the buffer (bytes not written stay zero; the
+closing `assert(ptr == end)` is compiled out under NDEBUG). -/
 def run (size : Nat) (m : Wr Unit) : Res Bytes :=
+  if 9223372036854775807 < size then .throw .length_or_alloc else
   match m size [] with
   | .ok (_, out) => .ok (out ++ List.replicate (size - out.length) 0)
   | .throw e => .throw e
   | .ub u => .ub u
+
+/-- The Lean value of an overview waveform keeps its points as one flat byte list, three bytes
+(low, mid, high) per point: the C++ `std::vector<overview_waveform_point>` it stands for. -/
+def triples : Bytes → List (UInt8 × UInt8 × UInt8)
+  | a :: b :: c :: r => (a, b, c) :: triples r
+  | _ => []
+
+/-- One `overview_waveform_point` held as three bytes. -/
+def triple (b : Bytes) : UInt8 × UInt8 × UInt8 := (b.getD 0 0, b.getD 1 0, b.getD 2 0)
 
 end Wr
 end EngineModel
